@@ -13,6 +13,9 @@ current goals run empty every goal reachable in the goal graph is covered
 Static part (`all_goals_reachable`, for all registries and all stored CDGs satisfying `CoOK` /
 `RegistryOK`): `_build_graph` raises nothing (no `KeyError` for `nodes_predicates[dependency.node]`,
 no `RuntimeError`, no "Root branches" assertion) and every goal is reachable from a root goal.
+`parents_own_dependencies` (ALL registries, no hypothesis): every edge of a successfully built goal graph
+leads from a goal of a predicate of the SAME code object, registered on a node the target's predicate is control
+dependent on (as its own CDG reports), to the target.
 `removeNodes_preserves`: the node removal of `_create_covered_cdg` (re-linking without branch values)
 keeps the two graph hypotheses.  `covered_cdg_ok`: WHICH nodes `_create_covered_cdg` removes is modelled too
 (`keepNode` / `removedNodes` over the exported `BlockInfo`s, `coveredCdg`); since `visit_node` applies the same
@@ -400,6 +403,78 @@ theorem all_goals_reachable (hr : RegistryOK goals preds cos)
   simp [buildGraph, hplans, hs]
 
 end Static
+
+/-- **A goal's structural parents are its OWN control dependencies.**  Whenever `_build_graph` succeeds — for ALL
+registries, well-formed or not —, every edge `j → i` of the goal graph was added for a control dependency
+`(m, w)` that the CDG of the code object of `i`'s predicate reported for that predicate's node, and `j` is the
+goal `(dp, w)` of a predicate `dp` registered for THE SAME code object on node `m` (`nodes_predicates` only
+holds the predicates of that code object: basic-block nodes of different code objects share their indices). -/
+theorem parents_own_dependencies {goals : List GoalKind} {preds : List Pred} {cos : List CoInfo} {G : GG}
+    (hb : buildGraph goals preds cos = .ok G) {j i : Goal} (he : (j, i) ∈ G.edges) :
+    ∃ c pid v pm ci m w dp, goals[i]? = some (.branch c pid v) ∧
+      preds.find? (fun p => p.id == pid) = some pm ∧ cos.find? (fun c => c.co == pm.co) = some ci ∧
+      (m, w) ∈ ci.deps pm.node ∧ dp ∈ preds ∧ dp.co = pm.co ∧ dp.node = m ∧
+      goals[j]? = some (.branch pm.co dp.id w) := by
+  cases hplans : mapE (goalPlan goals preds cos) goals with
+  | error e => simp [buildGraph, hplans] at hb
+  | ok plans =>
+    have hG : G = assemble plans := by
+      by_cases hs : sanityOk goals.length (assemble plans) = true
+      · simp [buildGraph, hplans, hs] at hb
+        exact hb.symm
+      · simp [buildGraph, hplans, hs] at hb
+    subst hG
+    obtain ⟨p, hp, hj⟩ := assemble_edge_inv he
+    have hlen : i < goals.length := by
+      have h1 : plans.length = goals.length := mapE_ok_length hplans
+      obtain ⟨hi, _⟩ := List.getElem?_eq_some_iff.1 hp
+      rw [← h1]
+      exact hi
+    obtain ⟨pl, hpl, hf⟩ := mapE_ok_getElem? hplans i goals[i] (List.getElem?_eq_getElem hlen)
+    rw [hp] at hpl
+    cases hpl
+    cases hg : goals[i] with
+    | branchless c =>
+      rw [hg] at hf
+      simp only [goalPlan] at hf
+      cases hf
+      cases hj
+    | branch c pid v =>
+      rw [hg] at hf
+      simp only [goalPlan] at hf
+      split at hf
+      · cases hf
+      · rename_i pm hpm
+        split at hf
+        · cases hf
+        · rename_i ci hci
+          split at hf
+          · cases hf
+          · split at hf
+            · cases hf
+            · rename_i ps hps
+              cases hf
+              obtain ⟨d, hd, hres⟩ := mapE_ok_mem_inv hps hj
+              unfold resolveDep at hres
+              split at hres
+              · cases hres
+              · rename_i dp hnp
+                split at hres
+                · cases hres
+                · rename_i j' hfg
+                  cases hres
+                  obtain ⟨hdp, hdco, hdn⟩ := nodePred_some hnp
+                  exact ⟨c, pid, v, pm, ci, d.1, d.2, dp, by rw [List.getElem?_eq_getElem hlen, hg], hpm, hci,
+                    hd, hdp, hdco, hdn, findGoal_some hfg⟩
+
+/-- Non-vacuity / the clause at work: two code objects whose blocks are numbered alike (`f0`: `if a: if b:`,
+`f1`: `if c:`, all predicates on nodes 3, 4 / 3).  The nested goals of `f0` (2, 3) hang below `f0`'s own guard
+(goal 0) — not below the goal of the predicate that sits on node 3 of the later code object (goal 4). -/
+example : (buildGraph [.branch 0 0 true, .branch 0 0 false, .branch 0 1 true, .branch 0 1 false,
+      .branch 1 2 true, .branch 1 2 false] [⟨0, 0, 3⟩, ⟨1, 0, 4⟩, ⟨2, 1, 3⟩]
+    [⟨0, fun _ => true, fun n => n == 3, fun n => if n == 4 then [(3, true)] else []⟩,
+     ⟨1, fun _ => true, fun n => n == 3, fun _ => []⟩]).toOption.map (fun G => (G.roots, G.edges)) =
+    some ([0, 1, 4, 5], [(0, 2), (0, 3)]) := by decide
 
 /-- **C07, end to end.**  For every goal graph built under the hypotheses above and every search
 history: a goal all of whose predecessors on some path from a root goal are covered is a current goal
